@@ -21,7 +21,7 @@ type Vector struct {
 
 // ReadVectors parses /repo/testdata/<dir>/*.txt ("lhs = r[;CODES:alt]...").
 func ReadVectors(r *eng.Run, dir string) []Vector {
-	files, _ := filepath.Glob(filepath.Join("/repo/testdata", dir, "*.txt"))
+	files, _ := filepath.Glob(filepath.Join(RepoDir(), "testdata", dir, "*.txt"))
 	var out []Vector
 	for _, f := range files {
 		fh, err := os.Open(f)
